@@ -118,6 +118,52 @@ def run_closure(case, drv):
     return ok(nontrivial=len(exp) > len({canon(*a) for a in case["assertions"]}), n=len(case["assertions"]), size=min(len(exp) // 5 * 5, 40))
 
 
+# ----------------------------------------------------------------------------- one object, assertions added between queries
+def gen_ind_history(rng, tier):
+    global _ALL
+    if _ALL is None:
+        _ALL = all_assertions()
+    k = rng.choice([2, 3, 3, 4])
+    s = rng.sample(_ALL, k)
+    cut = rng.randint(1, k - 1)
+    return {"first": s[:cut], "later": s[cut:], "probe": rng.sample(_ALL, 2), "ask": rng.choice(["closure", "entails", "is_equivalent"])}
+
+
+def run_ind_history(case, drv):
+    """an Independencies object that is queried, extended with add_assertions and queried again must answer like a fresh object
+    holding the same assertions (metamorphic: independent of the closure algorithm itself)"""
+    def sig(ind):
+        return {canon([VARS.index(v) for v in a.event1], [VARS.index(v) for v in a.event2], [VARS.index(v) for v in a.event3])
+                for a in ind.closure().get_assertions()}
+    tags = dict(ask=case["ask"], n=len(case["first"]) + len(case["later"]))
+    try:
+        ind = mk_ind(case["first"])
+        probe = mk_ind(case["probe"])
+        if case["ask"] == "closure":
+            ind.closure()
+        elif case["ask"] == "entails":
+            ind.entails(probe)
+        else:
+            ind.is_equivalent(probe)
+        for x, y, z in case["later"]:
+            ind.add_assertions([[VARS[i] for i in x], [VARS[i] for i in y], [VARS[i] for i in z]] if z else
+                               [[VARS[i] for i in x], [VARS[i] for i in y]])
+        fresh = mk_ind(case["first"] + case["later"])
+        a, b = sig(ind), sig(fresh)
+        if a != b:
+            return fail(f"closure after query + add_assertions has {len(a)} assertions, a fresh object with the same assertions {len(b)}", **tags)
+        held = mk_ind(case["later"])
+        if not ind.entails(held):
+            return fail("after add_assertions the object does not entail the assertions it was just given", **tags)
+        if bool(ind.entails(probe)) != bool(fresh.entails(probe)):
+            return fail("entails differs between the extended object and a fresh object with the same assertions", **tags)
+        if not ind.is_equivalent(fresh) or not fresh.is_equivalent(ind):
+            return fail("the extended object is not equivalent to a fresh object with the same assertions", **tags)
+    except Exception as e:
+        return fail(f"Independencies history raised {type(e).__name__}: {e}", **tags)
+    return ok(nontrivial=True, **tags)
+
+
 # ----------------------------------------------------------------------------- I-equivalence
 def enum_iequiv(tier):
     d3 = gen.all_dags(3)
@@ -330,6 +376,7 @@ def run_imap(case, drv):
 STREAMS = [
     Stream("closure_exhaustive", enum=enum_closure, run=run_closure),
     Stream("closure_random", gen_closure, run_closure, quick=300, thorough=3000),
+    Stream("history", gen_ind_history, run_ind_history, quick=300, thorough=3000),
     Stream("iequiv_exhaustive", enum=enum_iequiv, run=run_iequiv),
     Stream("iequiv_random", gen_iequiv, run_iequiv, quick=200, thorough=2000),
     Stream("check_independence", gen_ci, run_ci, quick=900, thorough=9000),
